@@ -152,6 +152,27 @@ func rulesFileDelegation(c *Ctx, r *Report) {
 				okOpen = true
 			}
 		}
+		// … and the parameter still holds what the caller passed: it is never assigned or handed out by address
+		for _, body := range []ast.Node{fd.Body, litBody} {
+			if !okOpen || body == nil {
+				break
+			}
+			ast.Inspect(body, func(nd ast.Node) bool {
+				switch x := nd.(type) {
+				case *ast.AssignStmt:
+					for _, l := range x.Lhs {
+						if id, ok := ast.Unparen(l).(*ast.Ident); ok && info.ObjectOf(id) == pathParam && x.Tok != token.DEFINE {
+							okOpen = false
+						}
+					}
+				case *ast.UnaryExpr:
+					if id, ok := ast.Unparen(x.X).(*ast.Ident); ok && x.Op == token.AND && info.ObjectOf(id) == pathParam {
+						okOpen = false
+					}
+				}
+				return true
+			})
+		}
 		if !r.check(okOpen && openVar != nil, "FD1", where, "opens with aio.Open(path)", c.pos(fd.Pos()),
 			"the path parameter is opened with gostuff aio.Open (decompresses by suffix)",
 			"the file is not opened with aio.Open(path): a .gz file would be decoded as raw bytes, or another path is opened") {
